@@ -31,6 +31,10 @@ type c11Req struct {
 	Proto           []string
 	Supported       []string
 	Muts            []string
+	// Ext: Sec-WebSocket-Extensions lines of the request; Mode: the server's compression mode. Neither has any
+	// bearing on whether the request is a valid handshake or on which subprotocol is selected.
+	Ext  []string
+	Mode websocket.CompressionMode
 }
 
 func (q c11Req) render() string {
@@ -46,6 +50,7 @@ func (q c11Req) render() string {
 	add("Sec-WebSocket-Version", q.Ver)
 	add("Sec-WebSocket-Key", q.Key)
 	add("Sec-WebSocket-Protocol", q.Proto)
+	add("Sec-WebSocket-Extensions", q.Ext)
 	b.WriteString("\r\n")
 	return b.String()
 }
@@ -59,7 +64,18 @@ func genC11(rt *rapid.T) c11Req {
 	q := c11Req{Method: "GET", Version: "1.1", Conn: []string{"Upgrade"}, Upgr: []string{"websocket"}, Ver: []string{"13"}}
 	q.Key = []string{genKey(rt, 16)}
 	// benign variation that keeps the request valid
-	switch rapid.IntRange(0, 5).Draw(rt, "benign") {
+	switch rapid.IntRange(0, 6).Draw(rt, "benign") {
+	case 6:
+		// long lists: the token that matters comes last, behind 15..40 others (proxies and frameworks add options)
+		n := rapid.SampledFrom([]int{15, 16, 17, 31, 40}).Draw(rt, "longListLen")
+		var opts []string
+		for i := 0; i < n; i++ {
+			opts = append(opts, fmt.Sprintf("x-hop-%d", i))
+		}
+		q.Conn = []string{strings.Join(append(opts, "Upgrade"), ", ")}
+		if rapid.Bool().Draw(rt, "longUpgradeToo") {
+			q.Upgr = []string{strings.Join(append(opts, "websocket"), ", ")}
+		}
 	case 1:
 		q.Conn = []string{rapid.SampledFrom([]string{"upgrade", "UPGRADE", "keep-alive, Upgrade", "Upgrade, keep-alive", "keep-alive,upgrade", "Upgrade ,  keep-alive", "keep-alive,\tUpgrade", "Upgrade\t, keep-alive", "keep-alive, \t Upgrade \t"}).Draw(rt, "connOK")}
 	case 2:
@@ -79,6 +95,12 @@ func genC11(rt *rapid.T) c11Req {
 			q.Supported = append(q.Supported, rapid.SampledFrom(protos[:len(protos)-1]).Draw(rt, "supported"))
 		}
 		var offered []string
+		if rapid.IntRange(0, 5).Draw(rt, "manyOffered") == 0 {
+			// a client that offers a long list: the ones the server knows come after 14..40 it does not
+			for i, n := 0, rapid.SampledFrom([]int{14, 15, 16, 17, 40}).Draw(rt, "fillerProtos"); i < n; i++ {
+				offered = append(offered, fmt.Sprintf("legacy.v%d", i))
+			}
+		}
 		for i := rapid.IntRange(0, 4).Draw(rt, "nOffered"); i > 0; i-- {
 			offered = append(offered, rapid.SampledFrom(protos).Draw(rt, "offered"))
 		}
@@ -96,6 +118,10 @@ func genC11(rt *rapid.T) c11Req {
 				q.Proto = []string{strings.Join(offered, ",\t")} // optional white space includes the tab
 			}
 		}
+	}
+	if rapid.IntRange(0, 2).Draw(rt, "withExtensions") == 0 {
+		q.Ext = []string{rapid.SampledFrom([]string{"permessage-deflate", "permessage-deflate; client_max_window_bits", "permessage-deflate; server_no_context_takeover; client_no_context_takeover", "x-webkit-deflate-frame"}).Draw(rt, "extOffer")}
+		q.Mode = rapid.SampledFrom(c01Modes).Draw(rt, "serverCompression")
 	}
 	k := rapid.SampledFrom([]int{0, 0, 0, 1, 1, 1, 1, 1, 2, 2}).Draw(rt, "nMutations")
 	for i := 0; i < k; i++ {
@@ -311,7 +337,7 @@ func TestC11(t *testing.T) {
 			// request can be upgraded through it, and none may be answered 101
 			lib, peer := memconn.Pipe()
 			rw := wsx.NewRespWriter(lib)
-			conn, aerr := websocket.Accept(struct{ http.ResponseWriter }{rw}, r, &websocket.AcceptOptions{Subprotocols: q.Supported})
+			conn, aerr := websocket.Accept(struct{ http.ResponseWriter }{rw}, r, &websocket.AcceptOptions{Subprotocols: q.Supported, CompressionMode: q.Mode})
 			if conn != nil {
 				conn.CloseNow()
 			}
@@ -334,7 +360,7 @@ func TestC11(t *testing.T) {
 			defer lib.Close()
 			w := wsx.NewRespWriter(lib)
 			w.HeadInWriter = true
-			sv, aerr = wsx.AcceptWith(w, r, &websocket.AcceptOptions{Subprotocols: q.Supported})
+			sv, aerr = wsx.AcceptWith(w, r, &websocket.AcceptOptions{Subprotocols: q.Supported, CompressionMode: q.Mode})
 			sv.Peer = peer
 			out := c11Outcome{Code: sv.W.Code, Hijacked: sv.W.Hijacked, Conn: sv.Conn, Err: aerr, H: sv.W.H}
 			msg := checkC11(q, text, verdict, key, out)
@@ -351,8 +377,12 @@ func TestC11(t *testing.T) {
 					msg = fmt.Sprintf("the response head that was in the hijacked bufio.Writer never reached the client: the first bytes on the wire are %q", wire[:min(len(wire), 40)])
 				case !found || (key != "" && !strings.Contains(head, "Sec-Websocket-Accept: "+ref.AcceptKey(key)+"\r\n")):
 					msg = fmt.Sprintf("the response head on the wire is incomplete or carries the wrong accept value: %q", head)
-				case rest != "\x81\x02hi":
-					msg = fmt.Sprintf("behind the response head the wire carries %q instead of the first frame", rest[:min(len(rest), 40)])
+				default:
+					// the message "hi" as text, in one frame or (when compression was agreed, a message goes through the streaming writer) in several
+					rep, verr := ref.ValidateStream([]byte(rest), ref.StreamOpts{FromClient: false, Deflate: sv.W.H.Get("Sec-WebSocket-Extensions") != "", Takeover: false}, false)
+					if verr != nil || len(rep.Messages) != 1 || rep.Messages[0].Type != ref.OpText || string(rep.Messages[0].Payload) != "hi" {
+						msg = fmt.Sprintf("behind the response head the wire carries %q instead of the text message \"hi\" (%v)", rest[:min(len(rest), 40)], verr)
+					}
 				}
 			}
 			if sv.Conn != nil {
@@ -369,12 +399,12 @@ func TestC11(t *testing.T) {
 			lib, peer := memconn.Pipe()
 			w := wsx.NewRespWriter(lib)
 			w.Deferred = true
-			sv, aerr = wsx.AcceptWith(w, r, &websocket.AcceptOptions{Subprotocols: q.Supported})
+			sv, aerr = wsx.AcceptWith(w, r, &websocket.AcceptOptions{Subprotocols: q.Supported, CompressionMode: q.Mode})
 			sv.Peer = peer
 			defer peer.Close()
 			defer lib.Close()
 		} else {
-			sv, aerr = wsx.AcceptReq(r, &websocket.AcceptOptions{Subprotocols: q.Supported}, nil)
+			sv, aerr = wsx.AcceptReq(r, &websocket.AcceptOptions{Subprotocols: q.Supported, CompressionMode: q.Mode}, nil)
 		}
 		out := c11Outcome{Code: sv.W.Code, Hijacked: sv.W.Hijacked, Conn: sv.Conn, Err: aerr, H: sv.W.H}
 		msg := checkC11(q, text, verdict, key, out)
